@@ -111,6 +111,8 @@ impl Shape {
 
 pub type NewFn = unsafe fn(*mut u8, &[u8]) -> bool;
 pub type CloneFn = unsafe fn(*const u8, *mut u8);
+/// `dst.clone_from(&src)`: (src, dst), both live values of the same type
+pub type CloneFromFn = unsafe fn(*const u8, *mut u8);
 pub type DropFn = unsafe fn(*mut u8);
 pub type CallFn = unsafe fn(*const u8, Shape, *const u8, *mut u8, usize);
 pub type ParFn = unsafe fn(*const u8) -> usize;
@@ -139,6 +141,7 @@ pub struct TypeInfo {
     pub new_from_slice: NewFn,
     pub new_fixed: NewFn,
     pub clone: Option<CloneFn>,
+    pub clone_from: Option<CloneFromFn>,
     pub drop: DropFn,
     pub enc: Option<CallFn>,
     pub dec: Option<CallFn>,
@@ -244,6 +247,10 @@ pub unsafe fn g_new_fixed<T: KeyInit>(slot: *mut u8, key: &[u8]) -> bool {
 
 pub unsafe fn g_clone<T: Clone>(src: *const u8, dst: *mut u8) {
     unsafe { ptr::write(dst as *mut T, (*(src as *const T)).clone()) }
+}
+
+pub unsafe fn g_clone_from<T: Clone>(src: *const u8, dst: *mut u8) {
+    unsafe { (*(dst as *mut T)).clone_from(&*(src as *const T)) }
 }
 
 pub unsafe fn g_drop<T>(slot: *mut u8) {
@@ -378,6 +385,7 @@ fn base<T: KeyInit + BlockSizeUser>(
         new_from_slice: g_new_from_slice::<T>,
         new_fixed: g_new_fixed::<T>,
         clone: None,
+        clone_from: None,
         drop: g_drop::<T>,
         enc: None,
         dec: None,
@@ -417,6 +425,7 @@ macro_rules! ti {
     }};
     (@clone $x:ident, $t:ty, clone) => {
         $x.clone = Some(g_clone::<$t>);
+        $x.clone_from = Some(g_clone_from::<$t>);
     };
     (@clone $x:ident, $t:ty, noclone) => {};
 }
@@ -612,6 +621,7 @@ fn raw_info<T: RawTf>(type_name: &'static str, family: &'static str, variant: &'
         new_from_slice: raw_new::<T>,
         new_fixed: raw_new::<T>,
         clone: Some(g_clone::<T>),
+        clone_from: Some(g_clone_from::<T>),
         drop: g_drop::<T>,
         enc: Some(raw_call::<T, false>),
         dec: Some(raw_call::<T, true>),
